@@ -410,13 +410,37 @@ func runC02(c *Ctx) {
 			return
 		}
 		comp := core.FindCalls(cl, func(f *types.Func) bool { return core.IsMethod(f, core.PkgCompress, "Writer", "Compress") })[0].(ssa.Instruction)
-		enc := core.FindCalls(cl, func(f *types.Func) bool { return core.IsMethod(f, core.PkgProto, "Block", "EncodeBlock") })
+		isEncode := func(f *types.Func) bool { return core.IsMethod(f, core.PkgProto, "Block", "EncodeBlock") }
+		enc := core.FindCalls(cl, isEncode)
+		// the compress-and-splice step may live in a helper that the encoding closure calls with the buffer
+		// and the start offset: the encoding is then looked for in the caller, the offset at the call site
+		var host *ssa.Function
+		var hostCall ssa.CallInstruction
+		if len(enc) == 0 {
+			for a := range core.StaticReach(eb, 2) {
+				if pkgOf(a) == nil || pkgOf(a).Path() != core.PkgCh || a == cl {
+					continue
+				}
+				for _, call := range core.Calls(a) {
+					if core.StaticFn(call) == cl && len(core.FindCalls(a, isEncode)) == 1 {
+						host, hostCall = a, call
+					}
+				}
+			}
+			if host != nil {
+				enc = core.FindCalls(host, isEncode)
+			}
+		}
 		if len(enc) != 1 {
 			c.R.Bad(rule, key+"/compressed", cfg, p.Pos(cl.Pos()), "compressed path does not encode the block exactly once")
 			return
 		}
 		bad := false
-		if !core.Dominates(enc[0].(ssa.Instruction), comp) {
+		after := comp
+		if host != nil {
+			after = hostCall.(ssa.Instruction)
+		}
+		if !core.Dominates(enc[0].(ssa.Instruction), after) {
 			bad = true
 			c.R.Bad(rule, key+"/compressed", cfg, p.Pos(comp.Pos()), "compression does not follow the encoding of the block")
 		}
@@ -427,7 +451,16 @@ func runC02(c *Ctx) {
 		var start ssa.Value
 		if ok && sl.Low != nil && sl.High == nil && core.FieldOrigin(sl.X, 0) == "Buffer.Buf" {
 			start = sl.Low
-			if lc, ok := start.(*ssa.Call); ok {
+			lenSrc := start
+			if pr, isP := start.(*ssa.Parameter); isP && host != nil {
+				// the offset parameter of the helper: what the encoding closure passes for it
+				for i, q := range cl.Params {
+					if q == pr && i < len(hostCall.Common().Args) {
+						lenSrc = hostCall.Common().Args[i]
+					}
+				}
+			}
+			if lc, ok := lenSrc.(*ssa.Call); ok {
 				if bi, ok := lc.Call.Value.(*ssa.Builtin); ok && bi.Name() == "len" && core.FieldOrigin(lc.Call.Args[0], 0) == "Buffer.Buf" && core.Dominates(lc, enc[0].(ssa.Instruction)) {
 					startOK = true
 				}
